@@ -118,6 +118,17 @@ Theorem C22_skipped_selection_unlisted : forall vars frags n s,
   flat_list (prune_frags vars frags) n (prune_list vars [s]) = Ok [].
 Proof. exact skipped_selection_unlisted. Qed.
 
+(* views and collections are functions of the document: the result does not
+   depend on the fuel at which it is computed *)
+Theorem C22_view_fuel_independent : forall frags n l v,
+  flat_list frags n l = Ok v -> forall m v', flat_list frags m l = Ok v' -> v = v'.
+Proof. exact (fun frags n => proj2 (flat_fuel_indep frags n)). Qed.
+
+Theorem C22_collect_fuel_independent : forall frags impls n st rt l v,
+  collect_list frags impls n st rt l = Ok v ->
+  forall m v', collect_list frags impls m st rt l = Ok v' -> v = v'.
+Proof. exact (fun frags impls n => proj2 (collect_fuel_indep frags impls n)). Qed.
+
 (* the model's whole invocation tree (the one compared with the recorded tree
    on every case): at every depth, each resolver invoked beneath a resolver is
    listed, with its complete own view, in that resolver's selection view *)
@@ -166,5 +177,7 @@ Print Assumptions C22_relative_to_pruning.
 Print Assumptions C22_skip_removed.
 Print Assumptions C22_kept_listed.
 Print Assumptions C22_skipped_selection_unlisted.
+Print Assumptions C22_view_fuel_independent.
+Print Assumptions C22_collect_fuel_independent.
 Print Assumptions C22_model_tree_listed.
 Print Assumptions C22_nonvacuous.
